@@ -154,6 +154,20 @@ STUB = '''pub mod __drv {
 '''
 
 
+def rs_str(x):
+    """Rust string literal."""
+    out = ['"']
+    for c in x:
+        if c in '"\\':
+            out.append("\\" + c)
+        elif ord(c) < 32 or ord(c) == 127:
+            out.append("\\u{%x}" % ord(c))
+        else:
+            out.append(c)
+    out.append('"')
+    return "".join(out)
+
+
 def impl_table(scan):
     """{type: set(trait-ish keys)} from the syn scan of root-module impls."""
     t = {}
@@ -243,7 +257,7 @@ class World:
         body.append("pub fn dispatch(t: &str, op: &str, input: &::serde_json::Value) -> ::serde_json::Value {\n"
                     "    match (t, op) {\n")
         for tag, (ty, op, expr) in arms_all:
-            body.append("        (%s, %s) => { %s } // arm:%s\n" % (json.dumps(ty), json.dumps(op), expr.replace("\n", " "), tag))
+            body.append("        (%s, %s) => { %s } // arm:%s\n" % (rs_str(ty), rs_str(op), expr.replace("\n", " "), tag))
         body.append("        _ => ::serde_json::json!({\"unsupported\": true}),\n    }\n}\n}\n")
         self.arms[i] = [(ty, op) for _, (ty, op, _) in arms_all]
         text = "".join(body)
